@@ -93,7 +93,15 @@ class Excel:
             # a whole column (B:B) next to a bounded area: the similar area starts at the top of that column
             base.row = 0
 
-        return Cell(base.title, base.column + (second.column - first.column), base.row + (second.row - first.row) if first.row is not None or second.row is not None else None)
+        # the extent of the area first:second, whichever of its corners is written first
+        return Cell(base.title, base.column + abs(second.column - first.column),
+                    base.row + abs(second.row - first.row) if first.row is not None or second.row is not None else None)
+
+    def get_top_left(self, first: Cell, second: Cell) -> Cell:
+        self._handle_cell_identifiers(first)
+        self._handle_cell_identifiers(second)
+        rows_given = isinstance(first.row, int) and isinstance(second.row, int)
+        return replace(first, column=min(first.column, second.column), row=min(first.row, second.row) if rows_given else first.row)
 
     def _get_vertical_range(self, first: Cell, second: Cell) -> list:
         start_row = first.row
